@@ -2,7 +2,7 @@
 import re
 
 from framework import scale, CaseResult, text_points, points_text
-from props.textcommon import run_text_tool, model_inputs, out_lines, input_lines
+from props.textcommon import run_text_tool, model_inputs, out_lines, input_lines, repeat_a_source
 
 GEN_FILES = ["GenText"]
 RULE = ("texts of 0..8 lines drawn from {numbered (1-9 then digits, up to 25 digits), digits-only, starting with 0, blank, leading blanks, "
@@ -95,6 +95,8 @@ def gen_cases(rng, tier):
         for j in range(k):
             st = rng.random() < 0.25
             inputs.append({"stdin": st, "text": gen_text(rng, not st)})
+        if rng.random() < 0.12:
+            repeat_a_source(rng, inputs)
         c = {"inputs": inputs,
              "start": rng.choice(BOUND) if rng.random() < 0.6 else rng.randint(1, 10000),
              "inc": rng.choice(BOUND) if rng.random() < 0.6 else rng.randint(1, 10000),
